@@ -374,7 +374,8 @@ class DD:
         if c is None:
             raise Undecided('%s: indirect call' % body.path)
         O = 'std::option::Option::<T>::'
-        if c in (O + 'is_some_and', O + 'map_or', O + 'map', O + 'is_some', O + 'is_none', O + 'map_or_else',
+        if c in (O + 'is_some_and', O + 'map_or', O + 'map', O + 'is_some', O + 'is_none', O + 'map_or_else', O + 'unwrap_or',
+                 O + 'unwrap_or_else', O + 'unwrap_or_default', O + 'is_none_or', O + 'and_then', O + 'filter',
                  'std::option::Option::<&T>::copied', 'std::option::Option::<&T>::cloned', O + 'as_ref'):
             opt = args[0]
             meth = c.split('::')[-1]
@@ -415,6 +416,25 @@ class DD:
                     else:
                         for a3, v in self._apply(args[1], [payload], a2, depth):
                             out.append((a3, ('some', v)))
+                elif meth == 'unwrap_or':
+                    out.append((a2, args[1] if payload is None else payload))
+                elif meth == 'unwrap_or_else':
+                    if payload is None:
+                        out.extend(self._apply(args[1], [], a2, depth))
+                    else:
+                        out.append((a2, payload))
+                elif meth == 'unwrap_or_default':
+                    out.append((a2, ('const', 0) if payload is None else payload))
+                elif meth == 'is_none_or':
+                    if payload is None:
+                        out.append((a2, ('const', 1)))
+                    else:
+                        out.extend(self._apply(args[1], [payload], a2, depth))
+                elif meth == 'and_then':
+                    if payload is None:
+                        out.append((a2, ('none',)))
+                    else:
+                        out.extend(self._apply(args[1], [payload], a2, depth))
             return out
         if c in ('std::cmp::PartialEq::eq', 'std::cmp::PartialEq::ne'):
             a, b = args
